@@ -161,7 +161,8 @@ pub fn base_records(name: &str) -> Vec<(u32, Val)> {
 pub fn package(name: &str, files: &[FFile], archive: Vec<u8>, compressor: Option<&str>, long_sizes: bool) -> Parts {
     let mut main = base_records(name);
     main.extend(file_records(files, long_sizes));
-    let total: u64 = files.iter().map(|f| f.archive_data().len() as u64).sum();
+    // as rpmbuild computes it: the sizes of the regular files
+    let total: u64 = files.iter().filter(|f| f.mode & 0o170000 == 0o100000).map(|f| f.content.len() as u64).sum();
     if long_sizes {
         main.push((5009, Val::Int64(vec![total])));
     } else {
